@@ -28,6 +28,7 @@ type Stage struct {
 	// Layouts, if set: every kept behaviour is replayed once under EACH of these page layouts
 	// (instead of under one of the standard concretisations chosen per behaviour)
 	Layouts []sim.Layout
+	Need    string // if set, keep only behaviours that contain an action with this name
 	MinNs   int // if > 0, keep only behaviours in which some transaction sets the size to at least this many model pages
 	Workers int // parallel replays (0 = one per CPU); the lock-page layout needs gigabytes per replay
 }
@@ -53,6 +54,9 @@ func Collect(rep *core.Report, st Stage, seed int64) []Trace {
 				if k < 0 || !bytes.HasPrefix(payload[k+5:], []byte(st.LastIs+`"`)) {
 					return
 				}
+			}
+			if st.Need != "" && !bytes.Contains(payload, []byte(`"a":"`+st.Need+`"`)) {
+				return
 			}
 			if st.MinNs > 0 {
 				ok := false
